@@ -40,10 +40,9 @@ def run(ctx, rep):
     T.check_index(ri, ri)
     rf = rep.rule("formula", "seconds formula (C01 P1)", floor=1)
     T.check_sec_formula(rf)
-    rrf = rep.rule("resolution-field", "the resolution every tick-to-time conversion and tick distance uses is the integer written on "
-                                       "the [Song] Resolution line (converter int, digits-only capture)", floor=3)
-    from .C15 import check_resolution_field
-    check_resolution_field(ctx, rrf)
+    # the statement speaks of the exact tempo-map time (of the end tick / of a tick bound): all premises of C01's argument
+    from .C01 import exact_time_premises
+    exact_time_premises(ctx, rep, prefix="time.")
     rch = rep.rule("chain", "file -> lines -> framing -> routing -> dispatcher -> note builder", floor=10)
     from .chain import check_chain
     check_chain(ctx, rch, "instrument", strict=True, recognisers=("chartparse.instrument.NoteEvent.ParsedData",))
